@@ -5,7 +5,7 @@ from .. import gen
 from ..common import Verdict, digest, rng_for, run_shards, seed, tier
 
 PROP = "C07"
-N = {"quick": 1500, "thorough": 25000}
+N = {"quick": 3000, "thorough": 30000}
 
 
 def gen_cases_for(seed_, n):
